@@ -27,7 +27,7 @@ func main() {
 		n := r.Pick(500, 8000)
 		st := sh.Batch(r, "C10", "hist", n, 8, func(c *ev.Case, i int) sh.Config {
 			cfg := sh.Config{NoUpstream: i%2 == 1, Steps: 8 + c.Rand.Intn(30), Windows: []int{sh.WCurrent, sh.WCurrent, sh.WForever, sh.WCurrent, sh.WPast}, KIDs: []string{"touch", "text", "touchless", "inagent"}, Preload: i%2 == 0, Forward: true, DirectLock: i%11 == 0,
-				Weights: map[string]int{"add-hard-cert": 14, "sign": 12, "forward": 6, "direct-add": 8, "remove": 6}}
+				Weights: map[string]int{"add-hard-cert": 14, "sign": 12, "forward": 6, "direct-add": 8, "remove": 6, "nil-keys": 1, "signers": 9}}
 			if i%4 == 0 {
 				cfg.FragmentPct = 50
 			}
@@ -92,7 +92,11 @@ func mkPilot(c *ev.Case, variant int) *pilot {
 		return step{name, func(s shimagent.ShimAgent) error { return s.Remove(key) }}
 	}
 	rmAll := step{"remove-all", func(s shimagent.ShimAgent) error { return s.RemoveAll() }}
-	switch variant % 4 {
+	expired := gen.MakeCert(gen.CertSpec{Key: p.keys[1], KeyID: "expired@x", ValidAfter: now - 7200, ValidBefore: now - 3600, Principals: []string{"u"}, Serial: uint64(c.Rand.Int63())})
+	switch variant % 5 {
+	case 4:
+		// an out-of-window certificate reaches the underlying agent; every later listing has to purge it (an extra remove request to fault)
+		p.steps = []step{add("add-key0", p.keys[0], nil), hc("add-hard-cert", p.hard), add("add-expired-cert1", p.keys[1], expired), list, add("add-expired-cert1-again", p.keys[1], expired), signers, add("add-expired-cert1-third", p.keys[1], expired), sign("sign-hard", p.hard), list}
 	case 0:
 		p.steps = []step{add("add-key0", p.keys[0], nil), hc("add-hard-cert", p.hard), list, sign("sign-hard", p.hard), signers, add("add-cert1", p.keys[1], p.cert), sign("sign-cert1", p.cert), fwd, ext, list}
 	case 1:
@@ -145,7 +149,7 @@ func faults(r *ev.Run) {
 	if !r.Want("fault") {
 		return
 	}
-	npil := r.Pick(4, 24)
+	npil := r.Pick(5, 25)
 	idx := 0
 	kinds := []int{wire.Failure, wire.Garbage, wire.WrongType, wire.Oversized, wire.Truncated, wire.Close}
 	for pi := 0; pi < npil; pi++ {
